@@ -5,6 +5,7 @@ import (
 	"context"
 	"fmt"
 	"io"
+	"os"
 	"sort"
 	"strings"
 
@@ -305,6 +306,11 @@ func runC04(tape *kernel.Tape) *kernel.Outcome {
 		return out
 	}
 	ctx := context.Background()
+	if dir := os.Getenv("VERIF_DUMP"); dir != "" {
+		for f, b := range enc {
+			os.WriteFile(dir+"/c04."+f, b, 0o644)
+		}
+	}
 	ref, refErr := runProgram(ctx, program, "zson", enc["zson"], zngio.ReaderOpts{Threads: 1}, nil)
 	desc.Rows = len(ref)
 	norm := func(rows []string) string {
@@ -356,6 +362,13 @@ func runC04(tape *kernel.Tape) *kernel.Outcome {
 		if (refErr != nil) != (gotErr != nil) {
 			out.Violation = kernel.Violatef(sig+":error-differs:"+f, "program %q: zson input gives error %v, %s input (%s) gives error %v", program, refErr, f, desc.ZNG, gotErr)
 			return out
+		}
+		if refErr != nil {
+			// Both runs end in an error: how much was emitted before it
+			// depends on batch boundaries, which legitimately differ between
+			// encodings; only "error in both" is comparable.
+			out.Probe("both-runs-error")
+			continue
 		}
 		if norm(ref) != norm(got) {
 			out.Violation = kernel.Violatef(sig+":output-differs:"+f, "program %q over %d values: output differs between zson input and %s input (%s)\n only with zson: %s\n only with %s: %s",
